@@ -220,7 +220,12 @@ def run(tier, seed):
     wordpairs = [it for it in items if it[0] in W and it[1] in W]
     rest = [it for it in items if not (it[0] in W and it[1] in W)]
     nword = 500 if tier == "quick" else len(wordpairs)
-    chosen = wordpairs[:nword] + rest[:budget - nword]
+    # the special cases of the lookup (pairs of non-simplified rotations U2/U3/Rot/CRot and their controlled / adjoint
+    # forms) are a separate code path with few pair-patterns: all of them, in every tier, with two angle assignments
+    R = {i for i, sh in enumerate(S) if sh.name in ("Rot", "U2", "U3", "CRot", "ctrl(Rot,[1])", "ctrl(U2,[1])", "adjoint(Rot)")}
+    rot = [it for it in rest if it[0] in R and it[1] in R]
+    rest = [it for it in rest if not (it[0] in R and it[1] in R)]
+    chosen = wordpairs[:nword] + rot + rot + rest[:budget - nword - 2 * len(rot)]
     reps = 1
     cases, meta = [], []
     for (i, j, pat) in chosen:
@@ -319,7 +324,7 @@ def run(tier, seed):
            "rule": "non-trivial = distinct (shape a, shape b, overlap pattern) with at least one shared wire where the answer is "
                    "True or the exact matrices commute (disjoint placements are trivially commuting)",
            "samples": samples, "exhaustive": False, "operand_shapes": len(S),
-           "pair_patterns_total": total_patterns, "pair_patterns_checked": len(chosen),
+           "pair_patterns_total": total_patterns, "pair_patterns_checked": len(set(map(str, chosen))), "rotation_special_case_patterns": len(rot),
            "answers_true": n_true, "pairs_commuting_exactly": n_commute, "pauli_word_pairs": n_words,
            "conservative_false": n_cons, "verdict_histogram": hist, "exception_classes": exc,
            "negative_controls_rejected": nneg, "ring_level_M": M}
